@@ -255,18 +255,56 @@ func Y(site uint32) {
 		// schedules; from here on, hand the turn round-robin every 64 steps so
 		// that only a wait nobody can ever satisfy reaches the hard budget.
 		if t.opSteps%64 == 0 {
-			if to := pick(cur); to >= 0 {
+			// strictly round-robin by task number, whatever the policy: with
+			// pick() two busy-waiting tasks of high priority hand the turn to each
+			// other for ever while the task they wait for never runs
+			if to := rrNext(rrCursor, cur); to >= 0 {
 				stats.StarveGuards++
+				// the task that gets the turn keeps it for a while whatever the
+				// policy says (a priority policy would hand it straight back)
+				rrCursor, leaseTask, leaseLeft = to, to, 512
 				preempt(t, site, to, 0)
 				return
 			}
 		}
+	}
+	if leaseLeft > 0 {
+		if cur == leaseTask {
+			leaseLeft--
+			return
+		}
+		leaseLeft = 0
 	}
 	to := decide(t, site, false)
 	if to >= 0 && to != cur {
 		preempt(t, site, to, 0)
 	}
 }
+
+// rrNext returns the next runnable task after me in cyclic task order.
+//
+//go:norace
+func rrNext(after, me int32) int32 {
+	n := ntasks - 1
+	if after < 1 || after > n {
+		after = me
+	}
+	for k := int32(1); k <= n; k++ {
+		i := (after-1+k)%n + 1
+		if i != me && tasks[i].state == stRunnable {
+			return i
+		}
+	}
+	return -1
+}
+
+// rrCursor is the task the starvation guard handed the turn to last; leaseTask
+// may run leaseLeft more steps without the policy being asked.
+var (
+	rrCursor  int32
+	leaseTask int32
+	leaseLeft int32
+)
 
 //go:norace
 func preempt(t *task, site uint32, to int32, kind uint8) {
@@ -890,6 +928,7 @@ func reset(s Sched, f Faults) {
 	resetChans()
 	resetTimers()
 	resetTicks()
+	rrCursor, leaseTask, leaseLeft = 0, 0, 0
 	resetCtx()
 }
 
